@@ -304,6 +304,8 @@ func travelCheck(e error, want time.Duration) string {
 	}()
 	select {
 	case <-obs:
+	case ok := <-done:
+		return fmt.Sprintf("returned %v without creating a timer", ok)
 	case <-time.After(5 * time.Second):
 		return "no timer created"
 	}
